@@ -126,9 +126,11 @@ def run_plain(case, root, viol, cnt):
         exp = D.Experiment.experimentFromPackage(ep, location=root, variable_files=list(vpaths) or None,
                                                 platform=pkg.get('platform'))
         exp.validateExperiment(checkExecutables=True)
-    except (E.ExperimentInvalidConfigurationError, E.FlowIRConfigurationErrors) as e:
-        # the loader rejects the generated package (e.g. the textual replica rewrite garbles references whose
-        # producer names contain one another - expansion is C03's business): nothing was stored, nothing to reload
+    except (E.ExperimentInvalidConfigurationError, E.FlowIRConfigurationErrors, E.UnusedDataReferenceError,
+            E.UndeclaredDataReferenceError) as e:
+        # the loader or the validation rejects the generated package (the textual replica rewrite and the textual
+        # resolution of references in a command line garble references whose producer names contain one another, e.g.
+        # proc:ref inside subproc:ref - C03 / C10's business): nothing usable was stored, nothing to reload
         cnt['probe.package_rejected_by_loader'] = cnt.get('probe.package_rejected_by_loader', 0) + 1
         return
     inst = exp.instanceDirectory.location
